@@ -1224,7 +1224,7 @@ var c18Fresh = newPart("C18", "fresh-processes",
 			}
 			err = ask(sv, fmt.Sprintf("fresh process %d", p+1))
 			sv.cmd.Process.Kill()
-			sv.cmd.Wait()
+			<-sv.exited
 			if err != nil {
 				return bad(true, nil, "%v", err)
 			}
